@@ -83,3 +83,59 @@ Example C17_exec_by_claim_holder_witness :
    edges (dg (c_proto ex_blocked)) 2) =
   ([mkFrame 1 PStart; mkFrame 2 (PExec [])], [mkFrame 2 PWait], Some (1, 2)).
 Proof. exact (conj ex_blocked_reachable ex_blocked_shape). Qed.
+
+(* ============================================================================================ *)
+(* STAGE 4: the same over CFetchD (CFetchD/Model.v): dynamic call lists (bodies as resumable
+   computations), durabilities, and the durability short-cut, in which a handle that does NOT
+   hold the claim stores verified_at (the switch [sc]; proved for both settings).  Proved
+   directly (CFetchD/ProofsSync.v from Proto's try_claim, CFetchD/ProofsOnce.v), any program. *)
+From Salsa.CFetchD Require Model ProofsRel ProofsSync ProofsVal ProofsOnce Examples.
+Import Salsa.CFetchD.Model Salsa.CFetchD.ProofsSync Salsa.CFetchD.ProofsOnce Salsa.CFetchD.Examples.
+
+Theorem C17_once_dyn :
+  forall fuel Q sc s, creachD fuel Q sc s ->
+  forall k r, (count_exec k r (cD_log s) <= 1)%nat.
+Proof. exact once_per_revisionD. Qed.
+
+Check C17_once_dyn :
+  forall fuel Q sc s, creachD fuel Q sc s ->
+  forall k r, (count_exec k r (cD_log s) <= 1)%nat.
+Print Assumptions C17_once_dyn.
+
+Theorem C17_claims_exclusive_dyn :
+  forall fuel Q sc s, creachD fuel Q sc s -> exclD s.
+Proof. exact claims_exclusiveD. Qed.
+
+Check C17_claims_exclusive_dyn :
+  forall fuel Q sc s, creachD fuel Q sc s -> exclD s.
+Print Assumptions C17_claims_exclusive_dyn.
+
+Theorem C17_exec_by_claim_holder_dyn :
+  forall fuel Q sc s t c s' t1 k1 r1,
+  creachD fuel Q sc s -> tstepD fuel Q sc s t c = Some s' ->
+  cD_log s' = EExec t1 k1 r1 :: cD_log s ->
+  t1 = t /\ r1 = cD_cur s /\
+  (exists st, sync (cD_proto s) k1 = Some st /\ ss_id st = OThread t) /\
+  (forall m, cD_memo s k1 = Some m -> o_ver m = cD_cur s ->
+     exists l ok below, Salsa.CFetchD.ProofsRel.stackD s t = mkFD k1 (DVerify l ok) :: below).
+Proof. exact exec_by_holderD. Qed.
+
+Check C17_exec_by_claim_holder_dyn :
+  forall fuel Q sc s t c s' t1 k1 r1,
+  creachD fuel Q sc s -> tstepD fuel Q sc s t c = Some s' ->
+  cD_log s' = EExec t1 k1 r1 :: cD_log s ->
+  t1 = t /\ r1 = cD_cur s /\
+  (exists st, sync (cD_proto s) k1 = Some st /\ ss_id st = OThread t) /\
+  (forall m, cD_memo s k1 = Some m -> o_ver m = cD_cur s ->
+     exists l ok below, Salsa.CFetchD.ProofsRel.stackD s t = mkFD k1 (DVerify l ok) :: below).
+Print Assumptions C17_exec_by_claim_holder_dyn.
+
+(* two handles, three revisions, short-cut on: a body that reads nothing is executed once in
+   three revisions, a body whose input did not change is not re-executed, everything else once
+   per revision *)
+Example C17_once_dyn_witness :
+  creachD 8 Qx true s2c /\
+  (count_exec 4 1 (cD_log s2c), count_exec 4 2 (cD_log s2c), count_exec 4 3 (cD_log s2c),
+   count_exec 1 1 (cD_log s2c), count_exec 1 2 (cD_log s2c), count_exec 3 2 (cD_log s2c),
+   count_exec 3 3 (cD_log s2c)) = (1, 1, 1, 1, 0, 0, 1)%nat.
+Proof. exact (conj s2c_reachable run2c_counts). Qed.
